@@ -57,6 +57,9 @@ func modelMsgsOfFile(mf *ModelFile) []ModelMsg {
 				m.DontCare[si] = true
 				continue
 			}
+			if strings.HasPrefix(v, "t") {
+				v = strings.TrimSuffix(v, "D") // "D": same instant and offset, carried by a DST-aware location
+			}
 			if pf.Kind == kindLocal {
 				// compared by wall-clock reading
 				body := v[1:]
